@@ -112,6 +112,9 @@ def _sym(x):
         return _b.any(_sym(v) for v in x)
     if isinstance(x, dict):
         return _b.any(_sym(v) for v in x.values())
+    d = getattr(x, "data", None) if not isinstance(x, (int, float, str, bytes, _np.ndarray, _np.generic)) else None
+    if isinstance(d, SArrBase):
+        return True          # repository array wrappers (CustomNumpyArray) around a symbolic array
     return hasattr(x, "__vc_symbolic__")
 
 
@@ -1184,7 +1187,12 @@ def logspace(lo, hi, num=50, base=10.0, **k):
 
 def fromiter(it, dtype=None, **k):
     if not _sym(it):
-        return _np.fromiter(it, dtype=dtype, **k)
+        r = _np.fromiter(it, dtype=dtype, **k)
+        if _fs_active() and r.ndim == 1 and r.size <= 64:
+            a = SArr.from_concrete(r)       # so that .tofile() goes to the symbolic file system
+            a.dtype_name = r.dtype.name
+            return a
+        return r
     raise Unsupported("np.fromiter on symbolic iterable")
 
 
